@@ -159,6 +159,16 @@ def items_all():
     for lit in ("{a{b}", "a}b", "{{}", "}", "{0}}{"):
         for kind, fields in (("unit", []), ("tuple", [Field("u8")]), ("named", [Field("u8", "a")])):
             add("bracket", Item("E", base_variants() + [Variant("B", kind, list(fields), [tos(lit)])]))
+    # the same errors inside LONG, NON-ASCII literals (multi-byte characters at every byte alignment around the offending bracket):
+    # an error path that slices the literal by byte offsets panics there instead of reporting
+    LONG = ["température mesurée trop élevée", "é" * 17, "日本語" * 6 + "x", "a" + "ß" * 9, "\u00a0" * 8 + "é"]
+    for pre in LONG:
+        for lit in ("{a{b}", "a}b", "}", "{0}}{"):
+            add("bracket", Item("E", base_variants() + [Variant("B", "tuple", [Field("u8")], [tos(pre + lit)])]))
+            add("bracket", Item("E", base_variants() + [Variant("B", "named", [Field("u8", "a")], [tos(lit + pre + lit)])]))
+        add("emptybrace", Item("E", base_variants() + [Variant("T", "tuple", [Field("u8")], [tos(pre + "{}" + pre)])]))
+        add("badident", Item("E", base_variants() + [Variant("N", "named", [Field("u8", "a")], [tos(pre + "{a b}")])]))
+        add("unitplaceholder", Item("E", base_variants() + [Variant("U", "unit", [], [tos(pre + "{x}" + pre)])]))
     for lit in ("{1x}", "{a b}", "{a-b}", "{fn}", "{0}"):
         add("badident", Item("E", base_variants() + [Variant("N", "named", [Field("u8", "a")], [tos(lit)])]))
     # 10 unknown style
